@@ -8,5 +8,5 @@ c_KIND == [lst |-> "lst", nst |-> "nst"]
 c_DECI == [lst |-> 0, nst |-> 0]
 c_PRICE == [lst |-> 1, nst |-> 1]
 c_PDEC == [lst |-> 0, nst |-> 0]
-c_NSTDELTAS == {-2, 1}
+c_NSTDELTAS == {-5, -3, -2, -1, 1}
 =============================================================================
